@@ -4,7 +4,7 @@ import copy
 
 import z3
 
-from .values import (HArr, HArr2, HList, HObj, HStruct, Ref, SliceV, State, Unsupported, SpecError, Func, Prim,
+from .values import (HViewList, HArr, HArr2, HList, HObj, HStruct, Ref, SliceV, State, Unsupported, SpecError, Func, Prim,
                      Module, ClassV, ExcClass, ExcValue, Bound, Opaque, SpecLambda, UNDEF, to_z3, truth, zand, zor,
                      znot, zimplies, kind_of, is_sym, as_const, SORTS)
 from .engine_expr import GenExp, RangeV, EnumV, ZipV, SpecArr, POISON, Poison
@@ -98,7 +98,8 @@ class StmtMixin:
             yield ("next", s1, None)
 
     DROPPED = {"print", "stdout.write", "stderr.write", "sys.stdout.write", "sys.stderr.write", "stdout.flush",
-               "sys.stdout.flush", "stderr.flush", "sys.stderr.flush", "warnings.warn", "fflush", "printf", "fprintf"}
+               "sys.stdout.flush", "stderr.flush", "sys.stderr.flush", "warnings.warn", "fflush", "printf", "fprintf",
+               "file.write", "file.flush", "self.file.write", "self.file.flush"}
 
     def is_dropped_call(self, v):
         if isinstance(v, ast.Call):
@@ -531,7 +532,34 @@ class StmtMixin:
         yield ("next", st, None)
 
     def st_With(self, node, st, fr):
-        raise Unsupported("with statement", node)
+        # context managers: the context expression is evaluated and bound; __enter__/__exit__ are not modelled
+        if len(node.items) != 1:
+            raise Unsupported("with statement with several items", node)
+        it = node.items[0]
+        for s1, v in self.ev(it.context_expr, st, fr):
+            states = [s1]
+            if it.optional_vars is not None:
+                states = self.assign(it.optional_vars, v, s1, fr, None)
+            for s2 in states:
+                yield from self.exec_block(node.body, s2, fr)
+
+    def do_yield(self, node, st, fr):
+        """`yield e` in a generator verified as a producer of a ghost output trace (DESIGN appendix A3)"""
+        if isinstance(node, ast.YieldFrom):
+            raise Unsupported("yield from", node)
+        g = getattr(fr, "gen", None)
+        if g is None:
+            raise Unsupported("yield in a function whose contract has no gen= clause", node)
+        for s1, v in self.ev(node.value, st, fr):
+            n_out = s1.ghost["out_n"]
+            n_src, item = g["seq"]
+            self.oblige(s1, to_z3(n_out, "int") < to_z3(n_src, "int"), "gen", "yield-count-within-source", node, fr)
+            want = item(s1, n_out)
+            self.oblige(s1, self.compare(ast.Eq(), v, want, s1, fr, node), "gen", "yields-items-in-order", node, fr)
+            self.oblige(s1, to_z3(s1.ghost.get("consumed", 0), "int") == to_z3(n_out, "int") + 1, "gen",
+                        "lazy-one-item-consumed-per-yield", node, fr)
+            s1.ghost["out_n"] = z3.simplify(to_z3(n_out, "int") + 1)
+            yield ("next", s1, None)
 
     EXC_PARENTS = {"FileNotFoundError": "OSError", "IOError": "OSError", "IndexError": "LookupError",
                    "KeyError": "LookupError", "ZeroDivisionError": "ArithmeticError"}
@@ -619,6 +647,14 @@ class StmtMixin:
         h = st.fork()
         h.path.append("%s:iter" % label)
         self.havoc_names(h, names, written, attrs, fr, spec, label, node)
+        has_yield = any(isinstance(x, (ast.Yield, ast.YieldFrom)) for b in node.body for x in ast.walk(b))
+        if has_yield and "out_n" in h.ghost:
+            h.ghost["out_n"] = z3.Int("out_n@%s!%d" % (label, next(_hc)))
+            self.assume(h, h.ghost["out_n"] >= 0)
+        is_source = isfor and getattr(fr, "gen", None) is not None and self.is_gen_source(it, fr)
+        if is_source:
+            # by construction of the desugared loop: items consumed so far == hidden counter
+            h.ghost["consumed"] = h.env[cnt]
         if isfor:
             # the for target is (re)bound at the start of each iteration
             pass
@@ -628,6 +664,11 @@ class StmtMixin:
             self.assume(h, to_z3(h.env[cnt], "int") >= 0)
             self.assume(h, to_z3(h.env[cnt], "int") <= to_z3(seq[0], "int"))
         dec = spec.get("dec")
+        # cover guard against vacuous invariants: a second iteration must be possible under the invariant
+        if cnt and not spec.get("at_most_once"):
+            kk = to_z3(h.env[cnt], "int")
+            if not self.feasible(h, z3.And(kk >= 1, kk < to_z3(seq[0], "int"))):
+                self.vacuity_warnings.append("%s: loop %s: invariant excludes every iteration after the first" % (self.cur_func, label))
         # 3. guard
         if isfor:
             k = h.env[cnt]
@@ -647,6 +688,8 @@ class StmtMixin:
                 if isfor:
                     k = b.env[cnt]
                     item = seq[1](b, k)
+                    if is_source:
+                        b.ghost["consumed"] = z3.simplify(to_z3(k, "int") + 1)
                     for b2 in self.assign(node.target, item, b, fr, None):
                         b2.env[cnt] = to_z3(k, "int") + 1
                         yield from self.loop_body(node, b2, fr, inv, label, dec, decval)
@@ -657,6 +700,8 @@ class StmtMixin:
                 e = s1.fork()
                 e.pc.append(to_z3(znot(guard)))
                 e.path.append("%s:exit" % label)
+                if isfor and is_source:
+                    e.ghost["consumed"] = seq[0]
                 if node.orelse:
                     yield from self.exec_block(node.orelse, e, fr)
                 else:
@@ -677,10 +722,25 @@ class StmtMixin:
             else:
                 yield (kind, s2, v)
 
+    def is_gen_source(self, it, fr):
+        src = fr.gen.get("source_value")
+        while isinstance(it, EnumV):
+            it = it.inner
+        return it is src or (isinstance(it, RangeV) and isinstance(src, RangeV))
+
     def havoc_names(self, st, names, written, attrs, fr, spec, label, node):
         tag = "%s!%d" % (label, next(_hc))
         ltypes = spec.get("locals", {}) if spec else {}
-        for n in sorted(names):
+        for n in sorted(set(names) | set(getattr(names, "mutated", ()))):
+            if n in ltypes and isinstance(ltypes[n], str) and ltypes[n].startswith("viewlist:"):
+                base = st.env[ltypes[n][9:]]
+                nn = z3.Int(n + "@" + tag + "!len")
+                self.assume(st, nn >= 0)
+                st.env[n] = st.alloc(HViewList(nn, base, z3.Array(n + "@" + tag + "!off", z3.IntSort(), z3.IntSort()),
+                                               z3.Array(n + "@" + tag + "!ln", z3.IntSort(), z3.IntSort())))
+                continue
+            if n not in names and n not in ltypes:
+                continue
             if n in ltypes:
                 res = list(self.instantiate(st, ltypes[n], n + "@" + tag))
                 if len(res) != 1:
@@ -802,6 +862,9 @@ class StmtMixin:
             return n, (lambda s, k: tuple(x[1](s, k) for x in subs))
         if isinstance(it, AbsIter):
             return it.n, (lambda s, k: it.item(s, k))
+        from .prims import AbsIterable
+        if isinstance(it, AbsIterable):
+            return it.total, (lambda s, k: it.items[to_z3(k, "int")])
         raise Unsupported("iteration over %s in a loop with invariant" % kind_of(it), node)
 
     def unroll(self, node, st, fr, it, label):
